@@ -181,21 +181,19 @@ def read_evaluate(path):
   body = _strip_doc(fn.body)
   parse_idx = None
   first_exec = None
-  perm_rule = None
+  perm_stmts = []
   for i, s in enumerate(body):
     d = ast.dump(s)
     if d == ("Assign(targets=[Name(id='code_block', ctx=Store())], value=Call(func=Attribute(value=Name(id='parsing', ctx=Load()), "
              "attr='parse', ctx=Load()), args=[Name(id='code', ctx=Load()), Name(id='permission', ctx=Load())], keywords=[]))"):
       if parse_idx is None:
         parse_idx = i
-    if isinstance(s, ast.Assign) and ast.dump(s.targets[0]) == "Name(id='permission', ctx=Store())":
+    touches_perm = any(isinstance(c, ast.Name) and c.id in ('permission', 'scope_permission') and isinstance(c.ctx, ast.Store)
+                       for c in ast.walk(s))
+    if touches_perm:
       if parse_idx is not None:
         raise TranslationError('evaluate(): permission reassigned after parse')
-      if d == ("Assign(targets=[Name(id='permission', ctx=Store())], value=BoolOp(op=Or(), values=[Name(id='permission', ctx=Load()), "
-               "Call(func=Attribute(value=Name(id='permissions', ctx=Load()), attr='get_permission', ctx=Load()), args=[], keywords=[])]))"):
-        perm_rule = 'arg_or_scope'
-      else:
-        perm_rule = 'other:' + d
+      perm_stmts.append(d)
     for c in ast.walk(s):
       if isinstance(c, ast.Call) and isinstance(c.func, ast.Name) and c.func.id in ('exec', 'eval', 'compile'):
         if first_exec is None:
@@ -204,11 +202,22 @@ def read_evaluate(path):
     raise TranslationError('evaluate(): `code_block = parsing.parse(code, permission)` not found at top level')
   if first_exec is not None and first_exec <= parse_idx:
     raise TranslationError('evaluate(): exec/eval/compile reachable before parse()')
-  if perm_rule is None:
-    perm_rule = 'arg_only'
-  if perm_rule.startswith('other:'):
-    raise TranslationError('evaluate(): unrecognised permission rule %s' % perm_rule[6:])
-  return perm_rule
+  GET = "Call(func=Attribute(value=Name(id='permissions', ctx=Load()), attr='get_permission', ctx=Load()), args=[], keywords=[])"
+  RULE_OR = ["Assign(targets=[Name(id='permission', ctx=Store())], value=BoolOp(op=Or(), values=[Name(id='permission', ctx=Load()), %s]))" % GET]
+  RULE_MEET = [
+      "Assign(targets=[Name(id='scope_permission', ctx=Store())], value=%s)" % GET,
+      "If(test=Compare(left=Name(id='permission', ctx=Load()), ops=[Is()], comparators=[Constant(value=None)]), "
+      "body=[Assign(targets=[Name(id='permission', ctx=Store())], value=Name(id='scope_permission', ctx=Load()))], "
+      "orelse=[If(test=Compare(left=Name(id='scope_permission', ctx=Load()), ops=[IsNot()], comparators=[Constant(value=None)]), "
+      "body=[Assign(targets=[Name(id='permission', ctx=Store())], value=BinOp(left=Name(id='permission', ctx=Load()), op=BitAnd(), "
+      "right=Name(id='scope_permission', ctx=Load())))], orelse=[])])"]
+  if perm_stmts == RULE_OR:
+    return 'arg_or_scope'
+  if perm_stmts == RULE_MEET:
+    return 'meet'
+  if perm_stmts == []:
+    return 'arg_only'
+  raise TranslationError('evaluate(): unrecognised computation of the effective permission: %s' % perm_stmts)
 
 
 def translate(repo=None):
@@ -264,8 +273,14 @@ def translate(repo=None):
   out.append('  | _ => []')
   out.append('  end.')
   out.append('')
-  out.append('(* evaluate(): permission = %s *)' % perm_rule)
-  out.append('Definition arg_falls_back_to_scope_when_falsy : bool := %s.' % ('true' if perm_rule == 'arg_or_scope' else 'false'))
+  out.append('(* evaluate(): how the effective permission is computed from the argument and the enclosing scope (rule: %s) *)' % perm_rule)
+  out.append('Definition eval_perm (arg scope : option N) : option N :=')
+  if perm_rule == 'arg_or_scope':    # permission = permission or get_permission()   (a falsy argument falls back)
+    out.append('  match arg with Some a => if N.eqb a 0 then scope else Some a | None => scope end.')
+  elif perm_rule == 'meet':          # None -> scope; both present -> a & s
+    out.append('  match arg, scope with None, s => s | Some a, None => Some a | Some a, Some s => Some (N.land a s) end.')
+  else:                              # the scope is ignored
+    out.append('  arg.')
   out.append('')
   return '\n'.join(out), dict(kinds=kinds, flags=flags, table=table, perm_rule=perm_rule)
 
